@@ -148,9 +148,17 @@ P = {
          "bounded-exhaustive design check + exhaustive byte-level conformance of the real handler judged by the statement layer only "
          "(any valid escaping accepted; empty keyed groups may be shown or omitted)",
          "float/time round trips checked by strconv/time on the Go side; line lexer in the harness passes structural bytes through", "5/C01"),
+ "C13": ("spec/logger/TextLine.tla (+TextLineMC), spec/common/Utf8.tla, spec/logger/TextCases.tla (scenarios from JsonLineMC)",
+         "TLA+ spec with an independent tokenizer for the key=value line grammar, Go-unquote, the Unicode White_Space list and the "
+         "dotted-path Expected tokens (statement), plus the quoting decision and strconv.Quote over code-point classes (implementation-shaped); "
+         "TLC checks the round trip over all class strings and rejects the Unicode-space mutant; real lines (structure replay inside derivation "
+         "trees, 24 value kinds, every 1-byte string, 2-byte strings, Unicode scalars in 5 positions) are tokenized and judged by TLC",
+         "bounded-exhaustive design check + exhaustive byte-level conformance of the real handler: every written line must tokenize into "
+         "exactly the prescribed tokens with each part unquoting to the original bytes (so nothing can forge a token or a line break)",
+         "constant head time=/level= checked on the Go side; White_Space list transcribed from Unicode 15", "5/C13"),
 }
 
-NOT_BUILT_REASON = "check not built yet in this session (see DESIGN.md section 5 for the planned TLA+ spec and binding)"
+NOT_BUILT_REASON = "check not built yet (see DESIGN.md section 5 for the planned TLA+ spec and binding)"
 
 
 def main():
